@@ -122,6 +122,11 @@ def _gather(
         raise RuntimeError(
             f"Cannot gather tensordict with shape {input.shape} along dim {dim_orig}."
         )
+    if index.ndim != input.batch_dims:
+        raise RuntimeError(
+            "Index tensor must have the same number of dimensions as the tensordict has batch dimensions, "
+            f"got index.shape={index.shape} and batch_size={input.batch_size}."
+        )
 
     def _gather_tensor(tensor, dest_container=None, dest_key=None):
         if dest_container is not None:
@@ -131,8 +136,8 @@ def _gather(
         index_expand = index
         while index_expand.ndim < tensor.ndim:
             index_expand = index_expand.unsqueeze(-1)
-        target_shape = list(tensor.shape)
-        target_shape[dim] = index_expand.shape[dim]
+        # the index covers the batch dims: only the trailing dims of the entry are expanded
+        target_shape = list(index.shape) + list(tensor.shape[index.ndim :])
         index_expand = index_expand.expand(target_shape)
         out = torch.gather(tensor, dim, index_expand, out=dest)
         return out
